@@ -90,6 +90,15 @@ def spec_status(timeout, temporary, fault):
     return 503 if temporary else 400
 
 
+def designed_content_type(design, svc, m, name):
+    """the content type the design fixes for the response of this error ('' = negotiated, JSON by default)"""
+    for scope in ((m.get("http") or {}).get("errors") or [], svc.get("http_errors") or [], design.get("api_http_errors") or []):
+        for e in scope:
+            if e["name"] == name:
+                return e.get("content_type") or ""
+    return ""
+
+
 def judge(label, exp, model, o):
     """[(signature, what)]"""
     if o.get("harness_error"):
@@ -110,8 +119,12 @@ def judge(label, exp, model, o):
     want_hdr = None if mv["header"] == "~" else bytes.fromhex(mv["header"]).decode()
     if want_hdr is not None and (hdr or [None])[0] != want_hdr:
         out.append(("error/goa-error-header/" + label, "goa-error header %r, expected %r" % (hdr, want_hdr)))
+    ct = ((w.get("resp_headers") or {}).get("Content-Type") or [""])[0]
+    want_ct = exp.get("content_type") or ""
+    if w.get("resp_body") and not ct.lower().startswith(want_ct or "application/json"):
+        out.append(("error/content-type/" + label, "the error response is sent as %r, the design %s" % (ct, ("fixes %r" % want_ct) if want_ct else "fixes none (JSON unless negotiated otherwise)")))
     try:
-        body = json.loads(w.get("resp_body") or "null")
+        body = json.loads(w.get("resp_body") or "null") if not want_ct or "json" in want_ct else None
     except Exception:
         body = "<unparsable>"
         out.append(("error/malformed-body/" + label, "response body is not JSON: %r" % (w.get("resp_body") or "")[:120]))
@@ -203,6 +216,8 @@ def run(c):
                         continue
                 ctx = ctx_tokens(b.design, s, m)
                 for label, script, rtoks, exp in scripts_for(b, s, m, rng):
+                    if not exp.get("undeclared"):
+                        exp["content_type"] = designed_content_type(b.design, s, m, exp["name"])
                     cmds.append({"op": "call", "service": s["name"], "method": m["name"], "payload": p, "script": {"error": script}})
                     meta.append((s, m, label, exp))
                     lines.append("errmap " + " ".join(ctx + rtoks))
